@@ -27,13 +27,13 @@ grep -q "^FAILED gen_store_str_eq" "$ROOT/arena.log" || { echo "UNEXPECTED: gen_
 grep -q "^FAILED gen_store_str_safe " "$ROOT/arena.log" || { echo "UNEXPECTED: gen_store_str_safe did not fail"; fail=1; }
 echo "== (2) LegacySanity.v against the same source: must compile"
 cp "$HERE/LegacySanity.v" "$ROOT/work/"
-( cd "$ROOT/work" && timeout 300 coqc -Q "${LASSO_COQ_DIR:-/verif/coq}" Lasso -Q . LassoGen LegacySanity.v ) > "$ROOT/legacy.log" 2>&1 \
+( cd "$ROOT/work" && timeout 300 coqc -Q "${VERIF_COQ_DIR:-/verif/coq}" Lasso -Q . LassoGen LegacySanity.v ) > "$ROOT/legacy.log" 2>&1 \
   && [ "$(grep -c 'Closed under the global context' "$ROOT/legacy.log")" = 2 ] \
   && echo "PROVED legacy_store_str_eq f1_witness_unsafe" || { echo "UNEXPECTED: LegacySanity.v fails"; cat "$ROOT/legacy.log"; fail=1; }
 echo "== (3) LegacySanity.v against the unmodified source: must NOT compile"
 "$HERE/run_arena.sh" "$REPO" "$ROOT/work0" > "$ROOT/arena0.log" 2>&1 || { echo "UNEXPECTED: unmodified source fails"; fail=1; }
 cp "$HERE/LegacySanity.v" "$ROOT/work0/"
-( cd "$ROOT/work0" && timeout 300 coqc -Q "${LASSO_COQ_DIR:-/verif/coq}" Lasso -Q . LassoGen LegacySanity.v ) > "$ROOT/legacy0.log" 2>&1 \
+( cd "$ROOT/work0" && timeout 300 coqc -Q "${VERIF_COQ_DIR:-/verif/coq}" Lasso -Q . LassoGen LegacySanity.v ) > "$ROOT/legacy0.log" 2>&1 \
   && { echo "UNEXPECTED: LegacySanity.v compiles against the repaired source"; fail=1; } || echo "rejected, as it must be: $(grep -m1 -A1 '^File' "$ROOT/legacy0.log" | tr '\n' ' ' | cut -c1-150)"
 echo "== (4) the same for the lock-free arena"
 mkdir -p "$ROOT/lrepo/src/arenas" "$ROOT/lwork"
@@ -51,7 +51,7 @@ grep -E "^(FAILED|LOST)" "$ROOT/lockfree.log" | cut -c1-60
 grep -q "^FAILED gen_lf_store_str_eq" "$ROOT/lockfree.log" || { echo "UNEXPECTED: gen_lf_store_str_eq did not fail"; fail=1; }
 grep -q "^FAILED gen_lf_store_str_safe" "$ROOT/lockfree.log" || { echo "UNEXPECTED: gen_lf_store_str_safe did not fail"; fail=1; }
 cp "$HERE/LegacySanityLf.v" "$ROOT/lwork/"
-( cd "$ROOT/lwork" && timeout 300 coqc -Q "${LASSO_COQ_DIR:-/verif/coq}" Lasso -Q . LassoGen LegacySanityLf.v ) > "$ROOT/legacylf.log" 2>&1 \
+( cd "$ROOT/lwork" && timeout 300 coqc -Q "${VERIF_COQ_DIR:-/verif/coq}" Lasso -Q . LassoGen LegacySanityLf.v ) > "$ROOT/legacylf.log" 2>&1 \
   && grep -q 'Closed under the global context' "$ROOT/legacylf.log" \
   && echo "PROVED legacy_lf_store_str_eq" || { echo "UNEXPECTED: LegacySanityLf.v fails"; cat "$ROOT/legacylf.log"; fail=1; }
 [ $fail -eq 0 ] && echo "sanity_f1: OK" || echo "sanity_f1: FAIL"
